@@ -335,7 +335,14 @@ def s4(I):
 
 # ---------------------------------------------------------------- the concurrent-farm limit beyond one page of the farm listing
 
-_BIG = 101          # configured max_concurrent_farms, above MAX_FARMS_LIMIT (100), the largest page of the internal farm listing
+_PAGE = 100         # MAX_FARMS_LIMIT: the largest page of the internal farm listing used to enforce the limit
+_BIG = _PAGE + 1
+
+
+def _fm_update_limit(n):
+    return mk_enum('mantra_dex_std::farm_manager::ExecuteMsg', 'UpdateConfig', fee_collector_addr=NONE(), epoch_manager_addr=NONE(), pool_manager_addr=NONE(),
+                   create_farm_fee=NONE(), max_concurrent_farms=Some(n), max_farm_epoch_buffer=NONE(), min_unlocking_duration=NONE(),
+                   max_unlocking_duration=NONE(), farm_expiration_time=NONE(), emergency_unlock_penalty=NONE())
 
 
 def _replay_s5(m):
@@ -343,26 +350,34 @@ def _replay_s5(m):
     farms = [('m-%03d' % k, 'owner1', LP1, 'uusd', 10, 0, 1, ep - 1, ep + 5) for k in range(_BIG)]
     return {'now_s': m['now_s'], 'farms': farms, 'counters': {'farm': 3},
             'mints': [('farm_manager', [('uusd', 10 * _BIG)]), ('creator', [('uusd', m['reward']), ('uom', 1000)])],
-            'config': {'create_farm_fee': {'denom': 'uom', 'amount': '1000'}, 'max_concurrent_farms': _BIG},
-            'txs': [('creator', _farm_msg('create', params=_params_json('uusd', m['reward'], ep + 1, ep + 11)), [('uom', 1000), ('uusd', m['reward'])])]}
+            'config': {'create_farm_fee': {'denom': 'uom', 'amount': '1000'}, 'max_concurrent_farms': _PAGE},
+            'txs': [('creator', {'update_config': {'max_concurrent_farms': _BIG}}, []),
+                    ('creator', _farm_msg('create', params=_params_json('uusd', m['reward'], ep + 1, ep + 11)), [('uom', 1000), ('uusd', m['reward'])])]}
 
 
-@obligation('C11', 'S5.limit_above_one_listing_page', entries=['execute', 'create_farm', 'get_farms_by_lp_denom', 'is_farm_expired'], kind='S',
-            statement='with max_concurrent_farms = %d (above the page size of the internal farm listing) and %d live farms on the LP token, one more creation is refused: '
-                      'the LP token never has more than the configured number of unexpired farms' % (_BIG, _BIG),
-            bounds='%d live farms with fixed budgets, symbolic reward / time; max_concurrent_farms = %d' % (_BIG, _BIG), covers=['refused'],
+@obligation('C11', 'S5.limit_above_one_listing_page', entries=['execute', 'update_config', 'create_farm', 'get_farms_by_lp_denom', 'is_farm_expired'], kind='B',
+            statement='history: the owner raises max_concurrent_farms from %d to %d (one more than a page of the internal farm listing); if that is accepted, an LP token '
+                      'with %d live farms does not get one more: the LP token never has more than the configured number of unexpired farms' % (_PAGE, _BIG, _BIG),
+            bounds='%d live farms with fixed budgets, symbolic reward / time; two messages (UpdateConfig, then Create)' % _BIG, covers=['limit_holds'],
             replay=fm_replay(lambda m: _replay_s5(m)))
 def s5(I):
     I.set_hint(dict(HINT, epoch=100, now_s=100 * DAY + 5))
     now, ep, b = _world(I)
-    fm_config(I, fee=coin_v('uom', 1000), max_concurrent=_BIG)
+    fm_config(I, fee=coin_v('uom', 1000), max_concurrent=_PAGE)
+    ch = Chain(I, CONTRACTS_FM)
+    st0, _ = ch.execute('creator', FM, _fm_update_limit(_BIG), [])
+    if st0 != 'ok':
+        # a limit the listing cannot enforce is not accepted in the first place: nothing to violate
+        I.observe('status', 'err')
+        I.cover('limit_holds')
+        I.outcome('larger_limit_refused')
+        return
     for k in range(_BIG):
         put_farm(I, farm('m-%03d' % k, 'owner1', LP1, 'uusd', 10, 0, 1, simp(ep - 1), simp(ep + 5)))
     b.set(FM, 'uusd', 10 * _BIG)
     reward = I.sym('reward', lo=1000, hi=U128 // 2)
     b.set('creator', 'uusd', reward)
     b.set('creator', 'uom', 1000)
-    ch = Chain(I, CONTRACTS_FM)
     st, resp = ch.execute('creator', FM, manage_farm('Create', params=farm_params(LP1, coin_v('uusd', reward), simp(ep + 1), simp(ep + 11))),
                           [coin_v('uom', 1000), coin_v('uusd', reward)])
     I.observe('status', 'ok' if st == 'ok' else 'err')
@@ -373,4 +388,4 @@ def s5(I):
         I.check('creation_refused_at_the_configured_limit', False)
         I.check('at_most_max_concurrent_unexpired', len(ms.entries) <= _BIG)
         return
-    I.cover('refused')
+    I.cover('limit_holds')
